@@ -214,6 +214,10 @@ func VerifC20_EventStore() {
 		vAssert(es.CountStoredEvents() == stored, "E5 the store keeps the first size events and drops the rest")
 		newSize := uint64(vChoice("newsize", int(maxSize)) + 1)
 		es.SetStoreSize(newSize)
+		if vBool("size.reapplied") {
+			// every configuration reload applies the store size again, changed or not, possibly before the next collect
+			es.SetStoreSize(newSize)
+		}
 		batch := es.CollectEvents()
 		vAssert(uint64(len(batch)) == stored && uint64(len(batch)) <= ss, "E5 a batch never exceeds the size in force when it was started")
 		for k := uint64(0); k < ss; k++ {
